@@ -22,8 +22,9 @@ BYTES = {1: b"a,b\n1,2\n", 2: b"a,b\n3,4\n5,6\n", 3: b"x;y\n\xff\xfe,\"q\"\n"}
 FP = {c: hashlib.sha256(b).hexdigest() for c, b in BYTES.items()}
 
 
-def _cfg(maxlen, view=False, emit=False):
+def _cfg(maxlen, view=False, emit=False, race=False):
     s = 'CONSTANTS\n  Names = {"na", "nb"}\n  Srcs = {"s1.csv", "s2.csv"}\n  Contents = {1, 2, 3}\n'
+    s += f"  Race = {'TRUE' if race else 'FALSE'}\n"
     s += f"  MaxLen = {maxlen}\nINIT Init\nNEXT Next\n"
     s += "".join(f"INVARIANT {i}\n" for i in INVS)
     if emit:
@@ -114,6 +115,37 @@ def _replay(hist):
                         with open(os.path.join("src", "files.json"), "w", encoding="utf-8") as jf:
                             json.dump({op["n"]: spath}, jf)
                         cp.file_manager.set_named_files_from_json(os.path.join("src", "files.json"))
+                elif op["k"] == "addrace":
+                    # a producer writes op["c2"] to the source while add_named_file is at work: just before the registration's copy of
+                    # the source (early) or just after it (late). The write is injected around shutil.copy, the one read of the source.
+                    import shutil
+
+                    spath = os.path.join("src", op["s"])
+                    with open(spath, "wb") as f:
+                        f.write(BYTES[op["c"]])
+                    real_copy = shutil.copy
+                    fired = []
+
+                    def racing_copy(a, b, *x, **kw):
+                        mine = os.path.abspath(str(a)) == os.path.abspath(spath) and not fired
+                        if mine and op["early"]:
+                            fired.append(1)
+                            with open(spath, "wb") as f2:
+                                f2.write(BYTES[op["c2"]])
+                        r_ = real_copy(a, b, *x, **kw)
+                        if mine and not op["early"]:
+                            fired.append(1)
+                            with open(spath, "wb") as f2:
+                                f2.write(BYTES[op["c2"]])
+                        return r_
+
+                    shutil.copy = racing_copy
+                    try:
+                        cp.file_manager.add_named_file(name=op["n"], path=spath)
+                    finally:
+                        shutil.copy = real_copy
+                    if not fired:
+                        return None       # the registration did not read the source through shutil.copy: the interleaving cannot be staged
                 elif op["k"] == "mutate":
                     with open(os.path.join("src", op["s"]), "wb") as f:
                         f.write(BYTES[op["c"]])
@@ -161,6 +193,16 @@ def main(tier):
                             simulate=f"num={sim[0]}", depth=sim[1] + 1, seed=common.seed() + 11), "NamedFiles simulate")
     rep.add_tlc(f"NamedFiles -simulate num={sim[0]} depth={sim[1]}", r3)
     hists += list(r3.records)
+    # (4) a producer still writing the source while it is registered: all histories of length 2 with AddRace
+    with open(os.path.join(spec, "_gen_NF_race.cfg"), "w") as f:
+        f.write(_cfg(2, emit=True, race=True))
+    r4 = require_ok(run_tlc("NamedFiles", "_gen_NF_race.cfg", timeout=1500, keep_stdout=False), "NamedFiles race")
+    rep.add_tlc("NamedFiles all histories of length 2 with a racing producer (AddRace)", r4)
+    racing = [h for h in r4.records if any(s["op"]["k"] == "addrace" for s in h)]
+    if tier == "quick":
+        racing = racing[common.seed() % 3 :: 3]
+    rep.extra["racing_histories_replayed"] = len(racing)
+    hists += racing
     if not hists:
         raise MachineryError("no histories emitted")
     bad = common.pmap(_replay, hists, initializer=scratch.enter_scratch)
@@ -168,7 +210,7 @@ def main(tier):
     rep.evaluations = sum(len(h) for h in hists)
     for h in hists:
         ops = tuple((s["op"]["k"], s["op"]["n"], s["op"]["s"], s["op"]["c"]) for s in h)
-        if sum(1 for o in ops if o[0] == "add") >= 1:
+        if sum(1 for o in ops if o[0] in ("add", "addrace")) >= 1:
             rep.nontrivial_case(ops)
     for h in hists[:: max(1, len(hists) // 3)][:3]:
         rep.sample([s["op"] for s in h])
@@ -180,7 +222,7 @@ def main(tier):
     rep.extra["random_history_length"] = sim[1]
     rep.rule = (f"operations add(name in 2, source in 2, content in 3) / mutate source / remove(name) / new instance; TLC explores all "
                 f"sequences <= {deep} on the abstract store; all histories of length {emit_len} and {sim[0]} random histories of length "
-                f"{sim[1]} are replayed into a real FileManager with the store compared after every operation. non-trivial = contains an add.")
+                f"{sim[1]}, and the histories of length 2 in which a producer writes the source while it is being registered (AddRace; quick: a third of them), are replayed into a real FileManager with the store compared after every operation. non-trivial = contains an add.")
     rep.assumptions = ["TLC; contents are three byte strings (one with non-UTF-8 bytes); sha256 by hashlib",
                        "remove_named_file is only issued for a present name (it raises otherwise)"]
     return rep.finish()
